@@ -3,6 +3,7 @@ CONSTANTS
   Focus = {"d"}
   NDcf = 2
   MaxArgv = 2
+  Repeat = FALSE
   Emit = TRUE
 INVARIANT DocumentedOrder
 INVARIANT StagesAgree
